@@ -194,7 +194,7 @@ class RxHarness(Harness):
         self.idle_code = self.dut.fsm.encoding["IDLE"]
 
     def env_init(self):
-        return (None, (), 2, 0)
+        return (None, (), 0, 1)        # the line must idle 2 clocks after reset (the synchroniser resets to 0)
 
     def choices(self, env):
         line, pend, gap, bad = env
